@@ -113,6 +113,7 @@ def run(repo='/repo', tier='quick'):
                     ok = ('port_parsed', '>', '0') in facts and ('port_parsed', '<', '65536') in facts and ('port_parsed', '>=', '0') in facts and P.K(a['r']) == 'port_parsed'
                     res.check(ok, 'C13.b', fname + ':valid-range', 'a port is accepted exactly under 0 < port_parsed < 65536', 'the accepted port range is not 1..65535 (guards: %s)' % [x for x in facts if x[0] == 'port_parsed'], a['loc'])
         res.check(nv == 1, 'C13.b', fname + ':one-accepting-arm', 'one accepting arm', '%d arms store a parsed port' % nv, g.loc)
+    c13e(db, res)
     c13d(db, res)
     res.assumptions.append('that the components partition the target (re-joining reproduces it) is a statement about values and is not decided')
     return res
@@ -254,3 +255,42 @@ def c13d(db, res):
                       % (wkey, delim, 'found' if arm == 'found' else 'not found', 'the bytes in front of the delimiter' if arm == 'found' else 'all bytes of the window'), call['loc'])
         if not verdicts:
             res.unknown('C13.d', "%smemchr(%s, '%s')" % (ctx, wkey, delim), 'no path from the entry reaches this split within the bound', call['loc'])
+
+
+def c13e(db, res):
+    """(1) The raw components are produced for every request, whoever supplied the normalised URI: the call that splits the
+    target into parsed_uri_raw does not depend on tx->parsed_uri.  (2) In htp_parse_hostport the port text that is reported and
+    the port text that is converted to a number are the same window in both arms."""
+    from .c01j import split_dst, lin, EXPAND
+    res.rule('C13.e', 'the raw split does not depend on a supplied normalised URI; in htp_parse_hostport the reported port text (*port = copy(A, n)) and the converted port text (htp_parse_port(A, n)) are the same window, in every arm')
+    f = db.get('htp_tx_state_request_line')
+    calls = [(b, c) for b, i, c in f.calls('htp_parse_uri')] + [(b, c) for b, i, c in f.calls('htp_parse_uri_hostport')]
+    res.floor('C13.e', 'raw split calls in htp_tx_state_request_line', len(calls), 2)
+    dep = [c for b, c in calls if any(a[0] == 'tx->parsed_uri' and a[2] == '0' for a, e in P.facts_at(f, b))]
+    res.check(not dep, 'C13.e', 'htp_tx_state_request_line:raw-split-unconditional', 'the raw split is made whether or not parsed_uri was supplied',
+              'the target is split into parsed_uri_raw only when tx->parsed_uri == NULL: with a URI supplied through htp_tx_req_set_parsed_uri() the raw components stay empty and do not re-join to the target', (dep[0]['loc'] if dep else f.loc))
+    g = db.get('htp_parse_hostport')
+    convs = g.calls('htp_parse_port')
+    res.floor('C13.e', 'port conversions in htp_parse_hostport', len(convs), 2)
+    dom = C.dominators(g)
+    for b, i, c in convs:
+        EXPAND[0] = False
+        try:
+            wa = (split_dst(g, c['args'][0]), lin(g, c['args'][1]))
+            # the copy of the port text that precedes this conversion in the same arm (closest dominating store to *port ... under port != NULL)
+            cands = []
+            for bb, ii, st in g.stmts():
+                for x in nodes(st, lambda y: y.get('k') == 'assign' and y['op'] == '=' and P.K(y['l']) == '*port' and P.call_name_of(y['r']) == 'bstr_dup_mem'):
+                    # same arm: the conversion is reachable from the store without passing another conversion
+                    if b in C.reachable(g, bb):
+                        cands.append((len(dom[bb]), bb, strip(x['r'])))
+            if not cands:
+                res.violated('C13.e', 'htp_parse_hostport:port-text-not-reported:%s' % P.K(c['args'][0])[:30], 'a port is converted from %s but its text is not reported in *port' % P.K(c['args'][0]), c['loc'])
+                continue
+            cp = max(cands)[2]
+            wb = (split_dst(g, cp['args'][0]), lin(g, cp['args'][1]))
+        finally:
+            EXPAND[0] = True
+        same = wa[0][0] is not None and wb[0][0] is not None and P.K(wa[0][0]) == P.K(wb[0][0]) and wa[0][1] == wb[0][1] and wa[1] == wb[1]
+        res.check(same, 'C13.e', 'htp_parse_hostport:same-window:%s' % P.K(c['args'][0])[:30], 'reported and converted port text are the same window',
+                  'htp_parse_hostport reports the port text %s but converts %s: the raw port component and the numeric port disagree (a ":" ends up in the reported port, host and port no longer re-join to the authority)' % (S(cp)[:60], S(c)[:60]), c['loc'])
